@@ -16,7 +16,7 @@ KIND = 'explorer'
 LEVEL = 'model_checking'
 LIVE = {'quick': ['external-kill-then-stop'], 'thorough': ['external-kill-then-stop', 'exit3-respawn', 'incr-decr-restart', 'stubborn-stop']}
 GRAPH = {'quick': 2, 'thorough': 3}
-BUDGET = {'quick': 150, 'thorough': 1500}
+BUDGET = {'quick': 900, 'thorough': 10800}
 RULE = ('breadth-first search over canonical quiescent states; bursts of <= (1 request + 1 worker death) with the '
         'death placed at every loop-iteration boundary and before every kernel call of the periodic check and of '
         'incr/decr/set/reload/kill/restart; death statuses exit 0/1/255 and signals 1/9/15 (plus a sweep over every '
